@@ -1,28 +1,21 @@
 """
 Known-findings classifier.
 
-known_findings.json (committed, never written at run time) lists genuine
-defects of the pinned tree by *mechanism*.  Each entry names a predicate defined
-here; a predicate looks only at the monitor that fired and at the witness the
-monitor recorded (never at seeds or random values).  `fixed` entries suppress
-nothing.
+/verif/known_findings/<property>.json (committed, never written at run time)
+lists genuine defects of the pinned tree by *mechanism*.  An entry with
+status "known" names a predicate defined in the property module's PREDICATES
+dict; a predicate looks only at the monitor that fired and at the witness the
+monitor recorded (never at seeds, hashes or random values).  Entries with status
+"fixed" document a repaired defect and suppress nothing.
 """
 import json
 import os
 
 HERE = os.path.dirname(os.path.dirname(os.path.abspath(__file__)))
-PREDICATES = {}
-
-
-def predicate(name):
-    def deco(fn):
-        PREDICATES[name] = fn
-        return fn
-    return deco
 
 
 def load(pid):
-    path = os.path.join(HERE, "known_findings.json")
+    path = os.path.join(HERE, "known_findings", pid + ".json")
     if not os.path.exists(path):
         return []
     with open(path) as f:
@@ -30,11 +23,11 @@ def load(pid):
     return [e for e in entries if e["property"] == pid]
 
 
-def classify(known, violation):
+def classify(known, violation, predicates):
     for entry in known:
         if entry.get("status") != "known":
             continue
-        pred = PREDICATES.get(entry["predicate"])
+        pred = predicates.get(entry.get("predicate"))
         if pred is None:
             continue
         try:
@@ -50,8 +43,3 @@ def describe(known, key):
         if entry["key"] == key:
             return entry.get("what_fails", "")
     return ""
-
-
-# ---------------------------------------------------------------------------
-# predicates (one per mechanism)
-# ---------------------------------------------------------------------------
